@@ -98,6 +98,10 @@ pub fn run_chunk(args: &[Sx]) -> Sx {
                 _ => unreachable!(),
             };
         }
+        if dump_ok && cut == 0 && args[3].tagged("rplan").is_empty() && stack != "lz4" && stored.len() <= 100000 {
+            let mk = || ExternalChunk::<Vec<u8>>::verif_from_reader(Box::new(std::io::Cursor::new(stored.clone()))).map(|r| r.ok());
+            if let Some(w) = walk_check(&mk) { emit(a(format!("ORACLE-FAIL:chunk-walked-by-{}", w))); }
+        }
         if stack == "bare" || stack == "buf" {
             emit(Sx::L(vec![a("dump"), a(if dump_ok { "ok" } else { "err" })]));
             if dump_ok {
@@ -136,6 +140,15 @@ pub fn run_kmerge(args: &[Sx]) -> Sx {
             calls.push(match m.next() { None => a("none"), Some(Ok((k, id))) => Sx::L(vec![a("ok"), a(k), a(id)]), Some(Err(e)) => Sx::L(vec![a("err"), a(e.0)]) });
         }
         emit(tag("calls", calls));
+        // error-free chunks: the merged stream is the same however the iterator is walked
+        let clean = args[1].tagged("chunks").iter().all(|c| c.list().iter().all(|x| x.list()[0].atom() == "ok"));
+        if clean && total <= 400 {
+            let mk = || {
+                let cs: Vec<Vec<Result<(u64, u64), TagErr>>> = args[1].tagged("chunks").iter().map(|c| c.list().iter().map(|x| { let l = x.list(); Ok((l[1].u64(), l[2].u64())) }).collect()).collect();
+                BinaryHeapMerger::new(total, cs, cmp).map(|r| r.ok())
+            };
+            if let Some(w) = walk_check(&mk) { emit(a(format!("ORACLE-FAIL:merger-walked-by-{}", w))); }
+        }
     })
 }
 
